@@ -73,6 +73,8 @@ func (r *rec) ev(id int) *ev { return &r.Events[id-1] }
 // (fault kind / provider behaviour, type of the event concerned).
 func (r *rec) faultKey() string {
 	var parts []string
+	// a provider behaviour belongs to the scenario only for IDs the provider can be asked for
+	askable := setOf(r.AskMax)
 	for _, e := range r.Events {
 		t := e.Type
 		if t == "member" {
@@ -81,7 +83,7 @@ func (r *rec) faultKey() string {
 		if e.F != "none" {
 			parts = append(parts, e.F+":"+t)
 		}
-		if e.P != "returns" {
+		if e.P != "returns" && (askable[e.ID] || r.Kind == "load") {
 			parts = append(parts, e.P+":"+t)
 		}
 	}
